@@ -45,6 +45,7 @@ type netParams struct {
 	PreOld       bool        `json:"pre_old,omitempty"`       // Pre: afterwards the remote also gets a branch `old` on a commit the earlier fetch left shallow
 	PreOldTag    bool        `json:"pre_old_tag,omitempty"`   // Pre: ... and a tag `oldtag` (not named by any refspec) on such a commit
 	Collide      bool        `json:"collide,omitempty"`       // fetch: two refspecs send a branch and a same-named tag (on another commit) to one destination
+	OtherTrack   bool        `json:"other_track,omitempty"`   // push: the local repository has remote-tracking refs of another remote below the pushed commits
 	PreMid       int         `json:"pre_mid,omitempty"`       // Pre: the earlier position of the branch (0 = pick a random ancestor)
 	Pre          string      `json:"pre,omitempty"`           // fetch: "shallow-fetch" = an earlier `fetch --depth 1` of an ancestor of the branch left shallow commits behind
 	ShallowLocal int         `json:"shallow_local,omitempty"` // push: this many non-tip commits of the pushed history lack their table locally (a shallow clone)
